@@ -116,6 +116,20 @@ def toNewVars (d : Dual α) (nv : List String) (state : VarsRel) : Dual α :=
   | .arcEq | .valEq => ⟨d.real, nv, d.dual⟩
   | _ => ⟨d.real, nv, nv.map (lookupOrZero d.vars d.dual)⟩
 
+/-- `Dual::new_from` (dual.rs): `Dual::new` re-indexed onto ANOTHER number's variable list
+(`to_new_vars(other.vars(), None)`: the state is computed by `vars_cmp`; the fresh list is never the
+same allocation as the other's) -/
+def newFrom (otherVars : List String) (real : α) (vars : List String) : Dual α :=
+  let d := Dual.new real vars
+  d.toNewVars otherVars (varsCmp false d.vars otherVars)
+
+/-- `Dual::try_new_from` (dual.rs); `none` = the error result of `try_new` -/
+def tryNewFrom (otherVars : List String) (real : α) (vars : List String) (dual : List α) :
+    Option (Dual α) :=
+  match tryNew real vars dual with
+  | none => none
+  | some d => some (d.toNewVars otherVars (varsCmp false d.vars otherVars))
+
 /-- `Vars::to_union_vars` with a given state -/
 def toUnionVars (a b : Dual α) (state : VarsRel) : Dual α × Dual α :=
   match state with
@@ -268,6 +282,18 @@ def toNewVars (d : Dual2 α) (nv : List String) (state : VarsRel) : Dual2 α :=
   | .arcEq | .valEq => ⟨d.real, nv, d.dual, d.dual2⟩
   | _ => ⟨d.real, nv, nv.map (lookupOrZero d.vars d.dual),
           nv.map (fun v => nv.map (fun w => lookup2OrZero d.vars d.dual2 v w))⟩
+
+/-- `Dual2::new_from` (dual.rs) -/
+def newFrom (otherVars : List String) (real : α) (vars : List String) : Dual2 α :=
+  let d := Dual2.new real vars
+  d.toNewVars otherVars (varsCmp false d.vars otherVars)
+
+/-- `Dual2::try_new_from` (dual.rs); `none` = the error result of `try_new` -/
+def tryNewFrom (otherVars : List String) (real : α) (vars : List String) (dual dual2 : List α) :
+    Option (Dual2 α) :=
+  match tryNew real vars dual dual2 with
+  | none => none
+  | some d => some (d.toNewVars otherVars (varsCmp false d.vars otherVars))
 
 def toUnionVars (a b : Dual2 α) (state : VarsRel) : Dual2 α × Dual2 α :=
   match state with
